@@ -37,6 +37,9 @@ Use(path, p, S, S2) ==
     [] path = "assign" -> <<Def1("t", S), VarDef(<<"u">>, "string", <<>>), Asg1("u", Var("t")), Print1(Var("u"))>>
     [] path = "concat" -> <<Def1("t", Bin("+", Bin("+", StrL("<"), S), StrL(">"))), Print1(Var("t")), Compound("t", "+", S), Print1(Var("t"))>>
     [] path = "compare" -> <<PrintS(<<CmpE("==", S, S2), CmpE("!=", S, S2), CmpE("==", S, StrL("other")), CmpE("!=", Bin("+", S, StrL("x")), S2)>>),
+                             \* against the empty string, a blank and the value doubled: a value is never "nothing" unless it is empty
+                             PrintS(<<CmpE("==", S, StrL("")), CmpE("!=", S, StrL("")), CmpE("==", StrL(""), S), CmpE("==", S, StrL(" ")), CmpE("==", Bin("+", S, S2), S)>>),
+                             Switch(S, <<CaseB(StrL(""), <<Print1(StrL("empty"))>>), CaseB(StrL(" "), <<Print1(StrL("blank"))>>)>>, <<Print1(StrL("neither"))>>, TRUE),
                              Switch(S, <<CaseB(StrL("other"), <<Print1(StrL("wrong"))>>), CaseB(S2, <<Print1(StrL("same"))>>)>>, <<Print1(StrL("default"))>>, TRUE)>>
     [] path = "arg" -> <<Func("show", <<Param("p", "string"), Param("q", "string")>>, <<>>, <<Print1(Var("q")), Print1(Var("p"))>>), ExprS(CallE("show", <<S, StrL("q")>>))>>
     [] path = "ret" -> <<Func("give", <<Param("p", "string")>>, <<"string", "string">>, <<RetS(<<Var("p"), StrL("second")>>)>>), Def(<<"r1", "r2">>, <<CallE("give", <<S>>)>>), Print1(Var("r1")), Print1(Var("r2"))>>
@@ -57,7 +60,7 @@ Legal(c, p, o) == ~(c = "\n" /\ (o = "stdin" \/ (o \in {"file", "cmd"} /\ p \in 
 
 \* whole values named in the property: leading dashes, glob characters, leading/trailing/repeated blanks, things a shell would execute
 Specials == <<"-n", "-e", "-E", "-n x", "-", "--", "-ne", "*", " * ", "?", "[a]", "a  b", "   ", " lead", "trail ", "  two  ", "~", "~root", "#c", "a #c", "a;b", "a&b", "a|b", "a>b", "a<b", "(a)", "{a,b}", "!x", "a=b", "x y z", "%s", "\\n",
-              "$HOME", "${PATH}", "$(touch CANARY)", "`touch CANARY`", "a;touch CANARY", "&& touch CANARY", "| touch CANARY", "> CANARY", "\"; touch CANARY; \"", "'q'", "it's", "1 -eq 1", "0", "", "-1", "true">>
+              "$HOME", "${PATH}", "$(touch CANARY)", "`touch CANARY`", "a;touch CANARY", "&& touch CANARY", "| touch CANARY", "> CANARY", "\"; touch CANARY; \"", "'q'", "it's", "1 -eq 1", "0", "", "-1", "true", " ", "\t", " \t ">>     \* new values are appended: the recorded findings name values by position
 MkS(i, path, o) == [id |-> "C08s/" \o path \o "/" \o o \o "/v" \o ToString(i),
                     prog |-> [body |-> Obtain(o, Specials[i]) \o (IF o = "inline" THEN Use(path, "only", StrL(Specials[i]), StrL(Specials[i])) ELSE Use(path, "only", Var("s"), Var("s2"))), world |-> World(o, Specials[i])], check |-> <<"fs">>]
 SpecialCases == {MkS(i, path, o) : i \in {j \in 1..Len(Specials) : Specials[j] # ""} , path \in Paths \ {"subscript"}, o \in Origins}
